@@ -12,7 +12,7 @@ RULE = ("Alignments come from two sources: kalign's own result on a generated se
         "equals the alignment that was written. Non-trivial = >= 2 rows and >= 1 gap; classes width%60==0, name length>60, "
         "chain>=2 and each ordered pair.")
 ASSUMPTIONS = ["gap-free alignments are compared after the first hop only (a gap-free file is by design not recognised as aligned)"]
-BUDGET = {"quick": dict(examples=500, workers=12, seconds=75), "thorough": dict(examples=1300, workers=16, seconds=600)}
+BUDGET = {"quick": dict(examples=300, workers=12, seconds=75), "thorough": dict(examples=1300, workers=16, seconds=600)}
 
 FMTS = ["fasta", "msf", "clu"]
 
